@@ -20,7 +20,14 @@ Strata (one generator each, every case is re-creatable from its case seed):
   names   field names / filenames / header values (quotes, backslashes, non-ASCII, percent, semicolons, CR/LF)
   edge    boundary look-alike placed at chunk_size - k for every k in 0..len(boundary)+4 (enumerated)
   term    mutated bodies: step budget linear in the body (termination), any exception is an accepted outcome
-  limits  header size / header count / client_max_size raise while reading (stream consumption at the raise)
+  limits  header size / header count / client_max_size raise while reading (stream consumption at the raise): the offending
+          part sits below 0..3 enclosing multiparts (limits given to the outermost reader only), the reader is built directly
+          or is the one request.multipart() returns, the part is read through read / read(decode) / text / json / form /
+          async-for (must raise the configured error type early) or read_chunk / release (must deliver); post() at depth 0
+          and on a form that holds nested multiparts
+  prog    writer *programs*: the API calls that assemble a plan in a generated order (parts edited after append, nested
+          writers filled and edited after they became a part, nesting <= 3) with `size` read - and the writer written - at
+          any point: size == bytes written at every point, for the outer and every nested writer
 """
 
 from __future__ import annotations
@@ -48,12 +55,17 @@ LEVEL_TEXT = (
     "encodings, nesting <= 2, hostile names) are written by the real writer, cut by whole/byte/fixed/random/boundary-relative "
     "segmentations, fed prefetched or on demand to a real StreamReader and read back through every public read API; an "
     "independent codec decides. The look-alike x chunk-edge offset grid is enumerated. Mutated bodies are read under a step "
-    "budget. Says: held on these executions; nothing about unexplored bytes."
+    "budget. Writer programs (append / header edits / set_content_disposition / nested writers filled after they became a part, "
+    "nesting <= 3) read `size` and write the writer at any point: size must equal the bytes written every time. Header-size, "
+    "header-count and part-size limits are exercised with the offending part below 0..3 enclosing multiparts, through a reader "
+    "built directly and through request.multipart(), for every read API. Says: held on these executions; nothing about unexplored bytes."
 )
 RULE = (
     "case = (part plan -> real writer output, segmentation, feed mode, per-part API script); non-trivial = the reader "
     "delivered at least one part or reached the body state machine; distinct = distinct (wire bytes, segmentation, feed, script); "
-    "term/limits cases: (mutated body, segmentation, script, limit configuration)"
+    "term/limits cases: (mutated body, segmentation, script, limit configuration x nesting depth 0..3 x reader origin x read API); "
+    "prog cases: (plan, program = linearisation of append / header edit / set_content_disposition / nested-writer calls with "
+    "size reads and checkpoint writes in between)"
 )
 ASSUMPTIONS = [
     "RefMultipart (vlib/refmultipart.py) reads RFC 2046 5.1.1 framing, RFC 2045 6.7/6.8 encodings and RFC 6266/5987 parameters correctly (profile rules R-DEFLATE-RAW, R-QP-LIBERAL, R-HDR-UTF8)",
@@ -99,16 +111,18 @@ def shards(tier, seed):
         add("rt", 900, 5)
         add("form", 600, 2)
         add("names", 3500, 1)
-        add("edge", 1, 3)
+        add("edge", 1, 2)
         add("term", 700, 4)
-        add("limits", 300, 1)
+        add("limits", 900, 1)
+        add("prog", 800, 1)
     else:
         add("rt", 7000, 40)
         add("form", 5000, 16)
         add("names", 25000, 8)
         add("edge", 1, 8)
         add("term", 6000, 32)
-        add("limits", 3000, 8)
+        add("limits", 6000, 8)
+        add("prog", 4000, 12)
     # edge shards enumerate a grid slice each
     k = 0
     ne = sum(1 for s in out if s["kind"] == "edge")
@@ -222,7 +236,9 @@ def check_writer_tree(plan, m: R.Multipart, path, v, rec):
         if cl is not None:
             rec.count("part-content-length-checked")
             if not (cl.isascii() and cl.isdigit()) or int(cl) != len(rp.raw):
-                v.append(("writer:part-content-length", f"{here}: Content-Length {cl} but the part body on the wire has {len(rp.raw)} bytes ({pp['kind']} {enc_tag(pp)})"))
+                # a part that is itself a multipart body (its length is that of a writer, not of a value) is named apart
+                mech = "writer:part-content-length:nested-multipart" if (pp["kind"] == "nested" and rp.children is not None) else "writer:part-content-length"
+                v.append((mech, f"{here}: Content-Length {cl} but the part body on the wire has {len(rp.raw)} bytes ({pp['kind']} {enc_tag(pp)})"))
         if pp["kind"] == "nested":
             if rp.children is None:
                 v.append(("writer:nested-not-multipart", f"{here}: Content-Type {rp.content_type!r}"))
@@ -526,13 +542,16 @@ def strip_obs(obs):
             strip_obs(o["children"])
 
 
-def write_plan(loop, plan, tmpdir):
+def write_plan(loop, plan, tmpdir, prog=None):
     L = _lab()
     built = L.Built()
-    res = {}
+    res = {"checkpoints": []}
 
     async def mk():
-        w = L.build_writer(plan, built, tmpdir)
+        if prog is not None:
+            w = await L.build_by_program(plan, prog, built, tmpdir, res["checkpoints"])
+        else:
+            w = L.build_writer(plan, built, tmpdir)
         res["writer"] = w
         res["ctype"] = w.content_type
         res["out"] = await L.write_out(w)
@@ -713,6 +732,101 @@ def replay(witness, rec):
         REPLAY[witness["stratum"]](witness, rec, loop, tmpdir)
     finally:
         shutil.rmtree(tmpdir, ignore_errors=True)
+
+
+# --------------------------------------------------------------------------------------------------
+# prog stratum: writer programs - every order in which the public API can assemble a body, `size` read at any point
+
+PROG_KINDS = ["bytes", "bytes", "str", "json", "form"]
+
+
+def ref_part_at(m, path):
+    rp = None
+    cur = m
+    for k in path:
+        if cur is None or k >= len(cur.parts):
+            return None
+        rp = cur.parts[k]
+        cur = rp.children
+    return rp
+
+
+def run_prog_case(loop, case_seed, rec, tmpdir):
+    """One plan assembled by a generated program (vlib/mpgen.gen_program, vlib/mplab.build_by_program): appends, header
+    edits, set_content_disposition and nested writers that are filled after they became a part, interleaved with
+    reads of `size`.  Invariant (property: "its declared size, when present, equals the bytes written"): whenever
+    `size` is read and the writer is written at that point, the two agree - for the outer writer and for every nested
+    one; and the end state is written, judged and read back like any other body."""
+    L = _lab()
+    rng = random.Random(case_seed)
+    kw: dict = {"max_depth": 3, "max_size": 3000}
+    if rng.random() < 0.75:
+        kw["kinds"] = PROG_KINDS
+    if rng.random() < 0.8:
+        kw["enc_choice"] = (None, None)
+    plan = G.gen_plan(rng, **kw)
+    G.decorate_nested(rng, plan)
+    prog = G.gen_program(rng, plan)
+    witness = {"stratum": "prog", "case_seed": case_seed}
+    ctx = f"prog#{case_seed}"
+    violations: list = []
+    shape = "".join({"new": "N", "append": "A", "hdr": "h", "del_hdr": "x", "disp": "d", "drop_cl": "c", "size": "s"}[st["op"]] + (str(len(st["path"])) if st["op"] in ("append", "size") else "") for st in prog)
+    res, exc = write_plan(loop, plan, tmpdir, prog=prog)
+    for st in prog:
+        rec.count("prog-step:" + st["op"] + (":depth%d" % len(st["path"]) if st["op"] in ("size", "append") else ""))
+    if exc is not None:
+        rec.violation(f"writer:exception:{type(exc).__name__}@{L.where_in_aiohttp(exc)}", f"[{ctx}] {exc!r} plan={plan_summary(plan)} program={shape}", witness)
+        rec.case(("writer-exc", case_seed), nontrivial=False)
+        return violations
+    rec.sig("program-shape", shape[:60])
+    # (1) size read at a point of the program vs the bytes the writer produces at that very point
+    seen = set()
+    for ent in res["checkpoints"]:
+        lvl = "size" if not ent["path"] else "nested-size"
+        if ent["size"] is None:
+            rec.count(f"checkpoint-{lvl}:None")
+            continue
+        rec.count(f"checkpoint-{lvl}:" + ("written" if ent["written"] is not None else "read-only"))
+        if ent["written"] is None:
+            continue
+        for when, sz in (("read before", ent["size"]), ("read after", ent.get("size_after_write"))):
+            if sz != ent["written"]:
+                mech = f"writer:{lvl}-at-checkpoint"
+                if mech not in seen:
+                    seen.add(mech)
+                    violations.append(mech)
+                    rec.violation(mech, f"[{ctx}] step {ent['step']} of program {shape}: writer at {ent['path']} with {ent['parts']} parts: size={sz} ({when} writing), bytes written={ent['written']}", witness)
+                break
+    m, wire = judge_written(plan, res, rec, ctx + f" program={shape}", witness, violations)
+    if m is None or any(x.startswith("writer:part-count") or x.startswith("writer:wire") for x in violations):
+        return violations
+    # (2) the nested writers' final sizes vs what stands on the wire for them
+    for ent in res["checkpoints"]:
+        if ent["final"] and ent["path"] and ent["size"] is not None:
+            rp = ref_part_at(m, ent["path"])
+            if rp is not None:
+                rec.count("nested-size-vs-wire-checked")
+                if ent["size"] != len(rp.raw):
+                    violations.append("writer:nested-size-vs-wire")
+                    rec.violation("writer:nested-size-vs-wire", f"[{ctx}] nested writer at {ent['path']}: size={ent['size']}, its body on the wire has {len(rp.raw)} bytes; program {shape}", witness)
+                    break
+    # (3) the body is read back
+    scripts = G.gen_scripts(rng, plan)
+    seg, feed = G.gen_seg_feed(rng, wire, plan["boundary"])
+    read_variant(loop, plan, m, wire, res["ctype"], seg, feed, scripts, rec, ctx, dict(witness, variant=0), violations, rng)
+    if rec.evaluations % 61 == 0:
+        rec.sample({"stratum": "prog", "boundary": plan["boundary"], "subtype": plan["subtype"], "parts": plan_summary(plan), "program": shape, "checkpoints": [{k: e[k] for k in ("step", "path", "size", "written")} for e in res["checkpoints"][:12]], "violations": violations})
+    return violations
+
+
+@stratum("prog")
+def shard_prog(spec, rec, loop, tmpdir):
+    base = spec["seed"] * 1_000_003 + spec["sub"] * 7919 + 53
+    for i in range(spec["n"]):
+        run_prog_case(loop, base * 100_000 + i, rec, tmpdir)
+
+
+REPLAY["prog"] = lambda w, rec, loop, tmpdir: run_prog_case(loop, w["case_seed"], rec, tmpdir)
 
 
 # --------------------------------------------------------------------------------------------------
@@ -1374,18 +1488,74 @@ def _limit_verdict(rec, kind, exc, expected_types, consumed, bound, detail, witn
         rec.violation(f"limit:{kind}:enforced-after-buffering", f"[{ctx}] {type(exc).__name__} raised after {consumed} bytes had been taken from the stream, bound {bound}; {detail}", witness)
 
 
+class _CustomTooLarge(Exception):
+    """A max_size_error_cls of the monitor's own: the reader must raise *this* type at every depth."""
+
+
+def nest_body(body: bytes, ctype: str, depth: int, outer_form: bool = False):
+    """Encloses a complete multipart body `depth` times: every level is a multipart whose first part is a small
+    value and whose last part is the enclosed multipart.  -> (body, content type, bytes added in front).
+    Each wrapper part has one header line (so that max_headers=1 admits it)."""
+    extra = 0
+    for d in range(depth):
+        bd = b"lvl%dx" % d
+        head = b"--" + bd + b"\r\nContent-Disposition: form-data; name=\"s%d\"\r\n\r\nsmall\r\n--" % d + bd + b"\r\nContent-Type: " + ctype.encode("ascii") + b"\r\n\r\n"
+        body = head + body + b"\r\n--" + bd + b"--\r\n"
+        extra += len(head)
+        ctype = ("multipart/form-data" if (outer_form and d == depth - 1) else "multipart/mixed") + "; boundary=" + bd.decode()
+    return body, ctype, extra
+
+
+def nest_scripts(leaf_scripts, depth: int):
+    sc = leaf_scripts
+    for _ in range(depth):
+        sc = [{"api": "read"}, {"api": "nested", "sub": sc}]
+    return sc
+
+
+def leaf_obs(obs, depth: int):
+    """Observations of the innermost body (below `depth` wrappers), [] when the reader did not get there."""
+    for _ in range(depth):
+        if len(obs) < 2 or not obs[1].get("nested"):
+            return []
+        obs = obs[1].get("children") or []
+    return obs
+
+
 def run_limits_case(loop, case_seed, rec, tmpdir):
+    """Limit classes (case_seed % 5) x nesting depth of the offending part ((case_seed // 5) % 4: the body is enclosed
+    in 0..3 multipart wrappers, the limits are given to the outermost reader only) x reader origin (MultipartReader(...)
+    built directly | the one `await request.multipart()` hands to a web handler) x read API."""
     L = _lab()
     rng = random.Random(case_seed)
     witness = {"stratum": "limits", "case_seed": case_seed}
-    ctx = f"limits#{case_seed}"
     boundary = rng.choice(["bnd", ":", "AaB03x", "0123456789abcdef0123456789abcdef"])
     B = boundary.encode()
-    ctype = "multipart/form-data; boundary=" + boundary if boundary != ":" else 'multipart/form-data; boundary=":"'
+    ctype0 = "multipart/form-data; boundary=" + boundary if boundary != ":" else 'multipart/form-data; boundary=":"'
     segn = rng.choice([512, 1024, 4096, 8192])
     feed = {"mode": "demand", "burst": rng.choice([1, 1, 2]), "eof_with_last": True}
-    slack = 2 * segn * feed["burst"] + 256
     which = case_seed % 5
+    depth = (case_seed // 5) % 4
+    # read-ahead that does not grow with the offending item: two feeds for the part being read (the boundary search
+    # looks one read beyond), and one more feed per enclosing level (the small value read there looked ahead as well)
+    slack = (2 + depth) * segn * feed["burst"] + 256
+    via = "request" if (case_seed // 20) % 3 == 2 else "reader"
+    ctx = f"limits#{case_seed} depth={depth} via={via}"
+    rec.count(f"limit-depth:{depth}")
+    rec.count(f"limit-via:{via}")
+
+    def read(body, leaf_scripts, budget, *, limits):
+        """limits: max_field_size / max_headers / client_max_size (/ max_size_error_cls for a directly built reader)."""
+        wbody, wctype, extra = nest_body(body, ctype0, depth)
+        segs = L.make_segs(wbody, {"k": "fixed", "n": segn}, rng)
+        scripts = nest_scripts(leaf_scripts, depth)
+        if via == "request":
+            vr = {k: v for k, v in limits.items() if k != "max_size_error_cls"}
+            vr.setdefault("client_max_size", 2**40)
+            obs, exc, stream, c = L.read_back(loop, wctype, segs, feed, scripts, budget=budget, via_request=vr)
+        else:
+            obs, exc, stream, c = L.read_back(loop, wctype, segs, feed, scripts, budget=budget, reader_kw=limits)
+        return obs, exc, stream, extra, len(wbody)
 
     if which == 0:  # header line longer than max_field_size
         F = rng.choice([8190, 8190, 100, 1000])
@@ -1401,45 +1571,65 @@ def run_limits_case(loop, case_seed, rec, tmpdir):
         else:
             line = b"X-Huge: " + b"a" * N + b"\r\n"
         body = pre + line + (b"" if shape == "no-lf" else b"\r\nvalue\r\n--" + B + b"--\r\n")
-        segs = L.make_segs(body, {"k": "fixed", "n": segn}, rng)
-        obs, exc, stream, c = L.read_back(loop, ctype, segs, feed, [{"api": "read"}], budget=200000, reader_kw={"max_field_size": F})
-        rec.case((body[:200], len(body), F, segn, "hdr-size"), nontrivial=True)
-        _limit_verdict(rec, "header-size", exc, None, stream.consumed, len(pre) + F + slack, f"max_field_size={F} line={len(line)} shape={shape} seg={segn} burst={feed['burst']} fed={stream.total_bytes}", witness, ctx)
+        obs, exc, stream, extra, total = read(body, [{"api": "read"}], 200000 + 40 * depth, limits={"max_field_size": F})
+        rec.case((body[:200], len(body), F, segn, depth, via, "hdr-size"), nontrivial=True)
+        _limit_verdict(rec, "header-size", exc, None, stream.consumed, extra + len(pre) + F + slack, f"max_field_size={F} line={len(line)} shape={shape} seg={segn} burst={feed['burst']} fed={stream.total_bytes}", witness, ctx)
     elif which == 1:  # more header lines than max_headers
         H = rng.choice([128, 128, 10, 1])
         N = rng.choice([H + 1, H + 2, 2 * H + 5, 5000])
         pre = b"--" + B + b"\r\n"
         lines = [b"X-%d: v\r\n" % i for i in range(N)]
         body = pre + b"".join(lines) + b"\r\nvalue\r\n--" + B + b"--\r\n"
-        segs = L.make_segs(body, {"k": "fixed", "n": segn}, rng)
-        obs, exc, stream, c = L.read_back(loop, ctype, segs, feed, [{"api": "read"}], budget=400000, reader_kw={"max_headers": H})
-        rec.case((len(body), H, N, segn, "hdr-count"), nontrivial=True)
+        obs, exc, stream, extra, total = read(body, [{"api": "read"}], 400000, limits={"max_headers": H})
+        rec.case((len(body), H, N, segn, depth, via, "hdr-count"), nontrivial=True)
         allowed = len(pre) + sum(len(x) for x in lines[: H + 2])
-        _limit_verdict(rec, "header-count", exc, None, stream.consumed, allowed + slack, f"max_headers={H} header lines={N} seg={segn} fed={stream.total_bytes}", witness, ctx)
+        _limit_verdict(rec, "header-count", exc, None, stream.consumed, extra + allowed + slack, f"max_headers={H} header lines={N} seg={segn} fed={stream.total_bytes}", witness, ctx)
         # and exactly max_headers lines are accepted
         body2 = pre + b"".join(lines[: max(0, H - 1)]) + b"Content-Disposition: form-data; name=\"a\"\r\n\r\nvalue\r\n--" + B + b"--\r\n"
-        segs = L.make_segs(body2, {"k": "fixed", "n": segn}, rng)
-        obs, exc, stream, c = L.read_back(loop, ctype, segs, feed, [{"api": "read"}], budget=400000, reader_kw={"max_headers": H})
+        obs, exc, stream, extra, total = read(body2, [{"api": "read"}], 400000, limits={"max_headers": H})
         rec.count("limit-runs:header-count-at-limit")
-        if exc is not None or not obs or obs[0].get("data") != b"value":
+        leaf = leaf_obs(obs, depth)
+        if exc is not None or not leaf or leaf[0].get("data") != b"value":
             rec.violation("limit:header-count:rejected-at-limit", f"[{ctx}] {H} header lines with max_headers={H}: {exc!r} obs={len(obs)}", witness)
-    elif which == 2:  # BodyPartReader.read() with client_max_size (MultipartReader(client_max_size=...))
+    elif which == 2:  # a part larger than client_max_size, through every read API
         M = rng.choice([100, 1000, 10000, 50000])
         size = rng.choice([M + 1, M + G.CHUNK, 4 * M + 5 * G.CHUNK, M + 300000])
         content = G.sanitize(rng.randbytes(64) * (size // 64 + 1), B)[:size]
         pre = b"--" + B + b"\r\nContent-Disposition: form-data; name=\"a\"\r\n\r\n"
-        body = pre + content + b"\r\n--" + B + b"--\r\n"
-        segs = L.make_segs(body, {"k": "fixed", "n": segn}, rng)
-        api = rng.choice(["read", "read_decode", "text"])
-        obs, exc, stream, c = L.read_back(loop, ctype, segs, feed, [{"api": api}], budget=400000, reader_kw={"client_max_size": M})
-        rec.case((size, M, segn, api, "part-size"), nontrivial=True)
-        _limit_verdict(rec, "part-size", exc, ["ValueError"], stream.consumed, len(pre) + M + 2 * G.CHUNK + slack, f"client_max_size={M} part={size} api={api} seg={segn} fed={stream.total_bytes}", witness, ctx)
+        tail = b"\r\n--" + B + b"\r\nContent-Disposition: form-data; name=\"t\"\r\n\r\nafter\r\n--" + B + b"--\r\n"
+        body = pre + content + tail
+        api = rng.choice(["read", "read", "read_decode", "text", "json", "form", "iter", "chunk", "chunk", "release"])
+        limits: dict = {"client_max_size": M}
+        errname = "ValueError"
+        if via == "request":
+            errname = "HTTPRequestEntityTooLarge"
+        elif rng.random() < 0.4:
+            limits["max_size_error_cls"] = _CustomTooLarge
+            errname = "_CustomTooLarge"
+        sc = {"api": api}
+        if api == "chunk":
+            sc["sizes"] = [rng.choice([G.CHUNK, 100, 65536])]
+        obs, exc, stream, extra, total = read(body, [sc, {"api": "read"}], 400000 + size // 20, limits=limits)
+        rec.case((size, M, segn, api, depth, via, errname, "part-size"), nontrivial=True)
+        rec.count(f"limit-api:{api}:depth{depth}")
+        detail = f"client_max_size={M} part={size} api={api} seg={segn} fed={stream.total_bytes}"
+        if api in ("chunk", "release"):
+            # nothing is accumulated by these (`async for` over a part is read() in disguise and belongs to the other
+            # branch): the limit has nothing to bound, the part and its successor are delivered
+            rec.count("limit-runs:part-size-streaming-api")
+            leaf = leaf_obs(obs, depth)
+            if exc is not None:
+                rec.violation(f"limit:part-size:streaming-api-raised:{type(exc).__name__}@{L.where_in_aiohttp(exc)}", f"[{ctx}] {exc!r}; {detail}", witness)
+            elif len(leaf) != 2 or (api != "release" and leaf[0].get("data") != content) or leaf[1].get("data") != b"after":
+                rec.violation("limit:part-size:streaming-api-content", f"[{ctx}] parts={len(leaf)} first={short(leaf[0].get('data')) if leaf else None} second={short(leaf[1].get('data')) if len(leaf) > 1 else None}; {detail}", witness)
+        else:
+            _limit_verdict(rec, "part-size", exc, [errname], stream.consumed, extra + len(pre) + M + 2 * G.CHUNK + slack, detail, witness, ctx)
         # a part of exactly client_max_size bytes is delivered
-        body2 = pre + content[:M] + b"\r\n--" + B + b"--\r\n"
-        segs = L.make_segs(body2, {"k": "fixed", "n": segn}, rng)
-        obs, exc, stream, c = L.read_back(loop, ctype, segs, feed, [{"api": "read"}], budget=400000, reader_kw={"client_max_size": M})
+        body2 = pre + content[:M] + tail
+        obs, exc, stream, extra, total = read(body2, [{"api": "read"}], 400000, limits=limits)
         rec.count("limit-runs:part-size-at-limit")
-        if exc is not None or not obs or obs[0].get("data") != content[:M]:
+        leaf = leaf_obs(obs, depth)
+        if exc is not None or not leaf or leaf[0].get("data") != content[:M]:
             rec.violation("limit:part-size:rejected-at-limit", f"[{ctx}] part of {M} bytes with client_max_size={M}: {exc!r}", witness)
     else:  # request.post() with client_max_size
         M = rng.choice([1000, 10000, 100000])
@@ -1462,23 +1652,50 @@ def run_limits_case(loop, case_seed, rec, tmpdir):
             raise wexc
         wire = res["out"][0]
         content_sum = sum(len(pp["content"]) for pp in plan["parts"])
-        segs = L.make_segs(wire, {"k": "fixed", "n": segn}, rng)
-        out, exc, stream = L.run_post(loop, res["ctype"], segs, feed, client_max_size=M, budget=2_000_000)
-        rec.case((len(wire), M, segn, shape, "post-size"), nontrivial=True)
-        if content_sum > M:
-            per_part_overhead = 400
-            fed = out.get("fed_at_exc", stream.total_bytes)
-            _limit_verdict(rec, "client_max_size", exc, ["HTTPRequestEntityTooLarge"], fed, M + per_part_overhead + slack + segn * feed["burst"], f"client_max_size={M} body={len(wire)} content={content_sum} shape={shape} seg={segn} burst={feed['burst']} consumed={out.get('consumed_at_exc')}", witness, ctx)
-        elif len(wire) <= M:
-            rec.count("limit-runs:client_max_size-below-limit")
-            if exc is not None:
-                rec.violation(f"limit:client_max_size:rejected-below-limit:{type(exc).__name__}", f"[{ctx}] body={len(wire)} <= client_max_size={M}: {exc!r}", witness)
-            elif len(out.get("items", [])) != len(plan["parts"]):
-                rec.violation("limit:client_max_size:fields-lost-below-limit", f"[{ctx}] {len(out.get('items', []))} of {len(plan['parts'])}", witness)
+        if depth == 0:
+            segs = L.make_segs(wire, {"k": "fixed", "n": segn}, rng)
+            out, exc, stream = L.run_post(loop, res["ctype"], segs, feed, client_max_size=M, budget=2_000_000)
+            rec.case((len(wire), M, segn, shape, "post-size"), nontrivial=True)
+            if content_sum > M:
+                per_part_overhead = 400
+                fed = out.get("fed_at_exc", stream.total_bytes)
+                _limit_verdict(rec, "client_max_size", exc, ["HTTPRequestEntityTooLarge"], fed, M + per_part_overhead + slack + segn * feed["burst"], f"client_max_size={M} body={len(wire)} content={content_sum} shape={shape} seg={segn} burst={feed['burst']} consumed={out.get('consumed_at_exc')}", witness, ctx)
+            elif len(wire) <= M:
+                rec.count("limit-runs:client_max_size-below-limit")
+                if exc is not None:
+                    rec.violation(f"limit:client_max_size:rejected-below-limit:{type(exc).__name__}", f"[{ctx}] body={len(wire)} <= client_max_size={M}: {exc!r}", witness)
+                elif len(out.get("items", [])) != len(plan["parts"]):
+                    rec.violation("limit:client_max_size:fields-lost-below-limit", f"[{ctx}] {len(out.get('items', []))} of {len(plan['parts'])}", witness)
+            else:
+                rec.count("grey:body-over-limit-only-by-framing-bytes")
         else:
-            rec.count("grey:body-over-limit-only-by-framing-bytes")
+            # the form sits below `depth` wrappers, the outermost one a multipart/form-data: post() does not descend into
+            # nested multiparts (it raises) - whatever it does, it must not take more than its limit from the stream
+            wbody, wctype, extra = nest_body(wire, res["ctype"], depth, outer_form=True)
+            segs = L.make_segs(wbody, {"k": "fixed", "n": segn}, rng)
+            out, exc, stream = L.run_post(loop, wctype, segs, feed, client_max_size=M, budget=2_000_000)
+            rec.case((len(wbody), M, segn, shape, depth, "post-nested"), nontrivial=True)
+            fed = out.get("fed_at_exc", stream.total_bytes)
+            if len(wbody) > M + extra + 2000:
+                _limit_verdict(rec, "client_max_size-nested-form", exc, None, fed, M + extra + 400 + slack + segn * feed["burst"], f"client_max_size={M} body={len(wbody)} shape={shape} seg={segn} burst={feed['burst']}", witness, ctx)
+            else:
+                rec.count("limit-runs:post-nested-below-limit:" + (type(exc).__name__ if exc is not None else "no-exception"))
+            # and the handler's way: request.multipart() with the request's client_max_size, every field read()
+            scripts = nest_scripts([{"api": "read"}], depth)
+            obs, exc, stream, c = L.read_back(loop, wctype, segs, feed, scripts, budget=2_000_000, via_request={"client_max_size": M})
+            leaf = leaf_obs(obs, depth)
+            big = max(len(pp["content"]) for pp in plan["parts"])
+            rec.case((len(wbody), M, segn, shape, depth, "request-multipart-nested"), nontrivial=True)
+            if big > M:
+                first_big = next(i for i, pp in enumerate(plan["parts"]) if len(pp["content"]) > M)
+                before = sum(len(pp["content"]) + 200 for pp in plan["parts"][:first_big])
+                _limit_verdict(rec, "part-size", exc, ["HTTPRequestEntityTooLarge"], stream.consumed, extra + before + 200 + M + 2 * G.CHUNK + slack, f"request.multipart() client_max_size={M} field={big} depth={depth} seg={segn}", witness, ctx)
+            else:
+                rec.count("limit-runs:request-multipart-fields-below-limit")
+                if exc is not None or [o.get("data") for o in leaf] != [pp["content"] for pp in plan["parts"]]:
+                    rec.violation("limit:part-size:rejected-below-limit", f"[{ctx}] request.multipart() client_max_size={M}, largest field {big}: {exc!r} fields read={len(leaf)} of {len(plan['parts'])}", witness)
     if rec.evaluations % 23 == 0:
-        rec.sample({"stratum": "limits", "which": ["header-size", "header-count", "part-size", "post-over", "post-under"][which], "seg": segn, "feed": feed})
+        rec.sample({"stratum": "limits", "which": ["header-size", "header-count", "part-size", "post-over", "post-under"][which], "depth": depth, "via": via, "seg": segn, "feed": feed})
 
 
 @stratum("limits")
